@@ -18,7 +18,10 @@ unmentioned files absent, nothing that is not a source-tree file, one top-level
 directory `name[-version]`, contents byte-identical.  Then the archive is
 unpacked elsewhere, configured with the same options and back end and built with
 the stub tool chain: same steps (and same argv modulo the two roots) for the
-default target, `everything` and `c18all`.
+default target, `everything` and `c18all`.  Finally new files are dropped into
+directories that cached find_files()/include= searches cover and `dist-zip` is
+run again: the build files regenerate and the archive must follow the model of
+the new tree (mechanisms of this phase end in 'after-regeneration').
 """
 import io
 import os
@@ -29,6 +32,7 @@ import zipfile
 from .. import core, proj
 from ..core import CaseResult
 from ..gen import c18gen, dag, dagrun
+from ..ref import c18ref
 
 LEVEL = 'exploration'
 MODE = 'thread'
@@ -38,7 +42,9 @@ RULE = ('seeded random dag specs x c18gen extensions (1-4 script scopes: main + 
         'find_files/find_paths calls over generated sub-trees with extra=/exclude=/filter=/type=/'
         'cache=/file_type=/dist=, build-dir rooted Path objects and patterns, extra_dist, steps '
         'that consume the objects and plain-string references, ~30 % of all markers dist=False, '
-        'options.bfg hierarchy, project()/no project(), junk files) x back end x 3 archive formats; '
+        'options.bfg hierarchy, project()/no project(), junk files) x back end x 3 archive formats '
+        '(zip on the fresh tree, gzip via dist or dist-gzip and bzip2 after building everything, zip '
+        'again after files were added to searched directories); '
         'distinct = (dag shape, back end, set of (builtin, dist flag) pairs used); non-trivial = '
         'at least one dist=False marker and one find/include item and one submodule or options file')
 ASSUMPTIONS = [
@@ -53,6 +59,9 @@ ASSUMPTIONS = [
     'dag-read files marked dist=False: the rebuild comparison is restricted to the steps that '
     'do not depend on them (the property\'s own exception), counted as restricted-rebuilds',
 ]
+# the dag features this module's reference walker (c18gen.dag_refs) knows how to read
+DAG_FEATURES = ['hdrs', 'steps', 'multi', 'gensrc', 'copy', 'alias', 'cmd', 'test', 'extra',
+                'default', 'install', 'always', 'subdirs', 'shared', 'implicit', 'pch']
 FORMATS = {'dist-zip': ('.zip', 'zip'), 'dist': ('.tar.gz', 'gz'), 'dist-gzip': ('.tar.gz', 'gz'),
            'dist-bzip2': ('.tar.bz2', 'bz2')}
 
@@ -61,15 +70,15 @@ def floors(tier):
     return {'archives-listed': 50, 'members-checked': 800, 'required-present': 600,
             'nodist-absent': 60, 'unmentioned-absent': 60, 'contents-compared': 600,
             'rebuild-configured': 15, 'rebuild-targets-compared': 45,
-            'rebuild-steps-compared': 300, 'submodule-scripts-required': 15,
-            'distinct_nontrivial': 10}
+            'rebuild-steps-compared': 200, 'submodule-scripts-required': 15,
+            'late-additions:required': 10, 'distinct_nontrivial': 10}
 
 
 def cases(tier, seed):
     n = 25 if tier == 'quick' else 400
     for i in range(n):
         rng = core.rng_for(seed, 'c18', i)
-        spec = dag.gen_spec(rng, size=rng.randint(3, 14))
+        spec = dag.gen_spec(rng, size=rng.randint(3, 14), features=set(DAG_FEATURES))
         ext = c18gen.gen_ext(rng, spec)
         yield {'spec': spec, 'ext': ext, 'backend': ('make', 'ninja')[i % 2], 'index': i,
                'gzip_target': rng.choice(['dist', 'dist-gzip'])}
@@ -250,6 +259,48 @@ def by_step(p, recs):
     return d, unknown
 
 
+def late_additions(ext, tree):
+    """Files to create after the first configuration: one that a cached
+    find_files()/include= search includes and one that its extra= catches, chosen
+    with the reference matcher.  -> {path: content}"""
+    add = {}
+    n = 0
+    for it in ext['items']:
+        if n >= 2:
+            break
+        if it['k'] == 'find':
+            pats, type_ = it['patterns'], it['type']
+        elif it['k'] == 'dir' and it['include']:
+            pats = [it['path'] + '/' + g for g in it['include']]
+            type_ = '*' if it['fn'] == 'directory' else 'f'
+        else:
+            continue
+        if it.get('cache') is False:
+            continue
+        sc = it['scope']
+        base = sc + '/'.join(c18ref.split_pattern(pats[0])[0])
+        if base and not any(f.startswith(base + '/') for f in tree):
+            # a search whose base directory does not exist watches nothing, so nothing
+            # regenerates when it appears (C08's business, not the archive's)
+            continue
+        want = {'include', 'extra'} if it.get('extra') else {'include'}
+        for d in ('', 'n1/', 'q/n2/'):
+            for name in ('c18new.c', 'c18new.h', 'c18new.txt', 'c18new.md'):
+                cand = (base + '/' if base else '') + d + name
+                if not want or cand in tree or cand in add:
+                    continue
+                fm = c18ref.FindModel(list(tree) + list(add) + [cand], [sc + q for q in pats],
+                                      type_, it.get('extra'), it.get('exclude'),
+                                      it.get('filter'))
+                why = fm.required.get(cand)
+                if why in want:
+                    add[cand] = 'added after configuration: %s\n' % cand
+                    want.discard(why)
+        if 'include' not in want:
+            n += 1
+    return add
+
+
 def run_case(case):
     res = CaseResult()
     spec, ext, backend = case['spec'], case['ext'], case['backend']
@@ -267,13 +318,17 @@ def run_case(case):
         if opt:
             res.exclude('membership the documentation does not decide (optional)', len(opt))
         top = c18gen.top_dir(ext)
-        m = a.model
         used = sorted({'%s:%s' % (i.get('fn', i['k']), i.get('dist', True)) for i in ext['items']})
         has_find = any(i['k'] == 'find' or (i['k'] == 'dir' and i['include'])
                        for i in ext['items'])
         res.key([dag.Model(spec).shape(), backend, used],
                 bool(nod or dnod) and has_find and (len(ext['scopes']) > 1 or ext['options']))
         res.evaluations = 0
+        res.classes.update('item:' + u for u in used)
+        res.classes.add('scopes:%d' % len(ext['scopes']))
+        res.sample = {'backend': backend, 'top': top, 'scopes': ext['scopes'],
+                      'required': len(req), 'nodist': len(nod), 'optional': len(opt),
+                      'build.bfg': tree['build.bfg'][-1800:]}
 
         rc, out = a.configure()
         if rc != 0:
@@ -282,22 +337,23 @@ def run_case(case):
 
         archives = {}
 
-        def dist(target):
+        def dist(target, tree, model, phase):
             rc, out = proj.build(a.bld, backend, [target], env=a.env)
             suffix, fmt = FORMATS[target]
             apath = os.path.join(a.bld, top + suffix)
             res.evaluations += 1
+            w = dict(wb, phase=phase)
             if rc != 0 or not os.path.exists(apath):
                 res.violate(('dist-target-failed', target),
-                            dict(wb, target=target, rc=rc, output=out[-1200:],
+                            dict(w, target=target, rc=rc, output=out[-1200:],
                                  archive_exists=os.path.exists(apath)))
                 return
-            got = check_archive(res, wb, target, fmt, apath, top, tree, model, a)
+            got = check_archive(res, w, target, fmt, apath, top, tree, model, a)
             if got is not None:
                 archives[target] = (apath, fmt)
 
         # 1. fresh tree
-        dist('dist-zip')
+        dist('dist-zip', tree, model, 'fresh')
         # 2. build everything, then the other formats (build products now exist)
         orig = {}
         for tgt in ([], ['everything'], ['c18all']):
@@ -310,85 +366,133 @@ def run_case(case):
             orig[name] = by_step(a, recs)
             if orig[name][1]:
                 res.violate((backend, 'unmodelled-step'), dict(wb, unknown=orig[name][1][:4]))
-        dist(case['gzip_target'])
-        dist('dist-bzip2')
+        dist(case['gzip_target'], tree, model, 'built')
+        dist('dist-bzip2', tree, model, 'built')
 
-        # 3. unpack, configure, build, compare (pointless when the archive already
-        # lacks files the model requires: every consequence would be reported again)
-        if any(mech[0] == 'member-missing' for mech, _ in res.violations):
-            res.ev('rebuild-skipped:members-missing')
-            return res
-        pick = case['gzip_target'] if case['gzip_target'] in archives else \
-            next(iter(archives), None)
-        if pick is None:
-            return res
-        apath, fmt = archives[pick]
-        broot = os.path.join(root, 'b')
-        unpack(apath, fmt, os.path.join(broot, 'unp'))
-        b = P18(case, broot, os.path.join(broot, 'unp', top), 'b')
-        b.prepare_builddir()
-        rc, out = b.configure()
-        res.evaluations += 1
-        if rc != 0:
-            res.violate(('rebuild', 'configure-failed'), dict(wb, output=out[-1500:]))
-            return res
-        res.ev('rebuild-configured')
-        lost = set()
-        for f in ext.get('nodist_dag') or []:
-            lost |= m.downstream('S:' + f)
-        if lost:
-            res.ev('restricted-rebuilds')
-        cum_want, cum_got = set(), set()
-        for name in ('default', 'everything', 'c18all'):
-            rc, out, recs = b.build([] if name == 'default' else [name])
-            got, unknown = by_step(b, recs)
-            res.ev('rebuild-targets-compared')
-            res.evaluations += 1
-            w = dict(wb, target=name)
-            if not lost:
-                want, have = set(orig[name][0]), set(got)
-                ok = want == have
-                if rc != 0:
-                    res.violate(('rebuild', 'build-failed'), dict(w, output=out[-1500:]))
-            else:
-                # a dag-read file is (legitimately) not distributed: the steps that need
-                # it cannot run.  Make (-k) builds everything else; Ninja refuses a
-                # target one of whose sources is missing, so steps may move to a later
-                # target or not run at all.  Compared cumulatively, exit status not judged.
-                cum_want |= set(orig[name][0]) - lost
-                cum_got |= set(got)
-                want, have = cum_want, cum_got
-                ok = have == want if backend == 'make' else have <= want
-                if ok and name == 'c18all':
-                    # the extension's own steps never depend on dag files
-                    ext_steps = {s for s, st in m.steps.items() if st['node'] >= 1000}
-                    ok = ext_steps & cum_want <= have
-            if not ok:
-                missing, spurious = sorted(want - have), sorted(have - want)
-                kinds = sorted({m.steps[s]['kind'] for s in missing + spurious if s in m.steps})
-                res.violate(('rebuild', 'steps-differ',
-                             'missing' if missing and not spurious else
-                             'spurious' if spurious and not missing else 'both'),
-                            dict(w, missing=missing, spurious=spurious, restricted=bool(lost),
-                                 kinds=kinds,
-                                 output=out[-1200:]))
-            if unknown:
-                res.violate(('rebuild', 'unmodelled-step'), dict(w, unknown=unknown[:4]))
-            for sid in sorted(set(orig[name][0]) & set(got)):
-                ra, rb = orig[name][0][sid][0], got[sid][0]
-                va, ca = norm_argv(ra, a)
-                vb, cb = norm_argv(rb, b)
-                res.ev('rebuild-steps-compared')
-                if sid in m.find_fed:
-                    va, vb = sorted(va), sorted(vb)
-                if va != vb or ca != cb:
-                    res.violate(('rebuild', 'argv-differs', m.steps[sid]['kind']),
-                                dict(w, step=sid, original=va, rebuilt=vb, cwd=[ca, cb]))
-        res.classes.update('item:' + u for u in used)
-        res.classes.add('scopes:%d' % len(ext['scopes']))
-        res.sample = {'backend': backend, 'top': top, 'scopes': ext['scopes'],
-                      'required': len(req), 'nodist': len(nod), 'optional': len(opt),
-                      'build.bfg': tree['build.bfg'][-1800:]}
+        # 3. unpack, configure, build, compare
+        rebuild(res, case, wb, root, a, orig, archives, top)
+
+        # 4. new files appear in searched directories: the build files regenerate
+        # (cache=True is the default) and the next archive follows
+        if case.get('late_add', True):
+            add = late_additions(ext, tree)
+            if add:
+                proj.settle()
+                proj.write_tree(a.src, add)
+                tree2 = dict(tree)
+                tree2.update(add)
+                model2 = c18gen.dist_model(spec, ext, tree2)
+                before = len(res.violations)
+                dist('dist-zip', tree2, model2, 'after-adding-files')
+                res.ev('late-additions', len(add))
+                for name in add:
+                    if name in model2[0]:
+                        res.ev('late-additions:required')
+                    elif name in model2[1]:
+                        res.ev('late-additions:nodist')
+                # same member checks, but a finding here is about the regeneration path
+                # (and only when the same member was not already reported before)
+                seen = {(mech, wit.get('member')) for mech, wit in res.violations[:before]}
+                new = [(mech + ('after-regeneration',), dict(wit, added_files=sorted(add)))
+                       for mech, wit in res.violations[before:]
+                       if (mech, wit.get('member')) not in seen]
+                res.violations[before:] = new
         return res
     finally:
         core.rmtree(root)
+
+
+def rebuild(res, case, wb, root, a, orig, archives, top):
+    spec, ext, backend = case['spec'], case['ext'], case['backend']
+    m = a.model
+    # (pointless when the archive already lacks files the model requires: every
+    # consequence would be reported again)
+    if any(mech[0] == 'member-missing' for mech, _ in res.violations):
+        res.ev('rebuild-skipped:members-missing')
+        return
+    pick = case['gzip_target'] if case['gzip_target'] in archives else \
+        next(iter(archives), None)
+    if pick is None:
+        return
+    apath, fmt = archives[pick]
+    broot = os.path.join(root, 'b')
+    unpack(apath, fmt, os.path.join(broot, 'unp'))
+    b = P18(case, broot, os.path.join(broot, 'unp', top), 'b')
+    b.prepare_builddir()
+    rc, out = b.configure()
+    res.evaluations += 1
+    if rc != 0:
+        res.violate(('rebuild', 'configure-failed'), dict(wb, output=out[-1500:]))
+        return
+    res.ev('rebuild-configured')
+    lost = set()
+    for f in ext.get('nodist_dag') or []:
+        lost |= m.downstream('S:' + f)
+    if lost:
+        res.ev('restricted-rebuilds')
+    cum_want, cum_got = set(), set()
+    for name in ('default', 'everything', 'c18all'):
+        rc, out, recs = b.build([] if name == 'default' else [name])
+        got, unknown = by_step(b, recs)
+        if backend == 'ninja' and rc != 0 and 'still dirty after' in out:
+            # Ninja re-runs `bfg9000 regenerate` for ever: the regenerate rule names
+            # depfile .bfg_find_deps, which bfg9000 only writes when a find_files()
+            # call saw at least one directory - and in the unpacked archive the
+            # searched directories (nothing in them is distributed) do not exist
+            absent = set()
+            for i in ext['items']:
+                pats = i['patterns'] if i['k'] == 'find' else \
+                    [i['path'] + '/' + g for g in i['include']] \
+                    if i['k'] == 'dir' and i['include'] else []
+                for pt in pats:
+                    d = i['scope'] + '/'.join(c18ref.split_pattern(pt)[0])
+                    if not os.path.isdir(os.path.join(b.src, d)):
+                        absent.add(d)
+            res.violate(('rebuild', 'ninja-manifest-never-clean',
+                         'find-dir-absent' if absent else 'other'),
+                        dict(wb, target=name, find_dirs_not_in_archive=sorted(absent),
+                             depfile_exists=os.path.exists(
+                                 os.path.join(b.bld, '.bfg_find_deps')),
+                             output=out[-400:]))
+            break
+        res.ev('rebuild-targets-compared')
+        res.evaluations += 1
+        w = dict(wb, target=name)
+        if not lost:
+            want, have = set(orig[name][0]), set(got)
+            ok = want == have
+            if rc != 0:
+                res.violate(('rebuild', 'build-failed'), dict(w, output=out[-1500:]))
+        else:
+            # a dag-read file is (legitimately) not distributed: the steps that need
+            # it cannot run.  Make (-k) builds everything else; Ninja refuses a
+            # target one of whose sources is missing, so steps may move to a later
+            # target or not run at all.  Compared cumulatively, exit status not judged.
+            cum_want |= set(orig[name][0]) - lost
+            cum_got |= set(got)
+            want, have = cum_want, cum_got
+            ok = have == want if backend == 'make' else have <= want
+            if ok and name == 'c18all':
+                # the extension's own steps never depend on dag files
+                ext_steps = {s for s, st in m.steps.items() if st['node'] >= 1000}
+                ok = ext_steps & cum_want <= have
+        if not ok:
+            missing, spurious = sorted(want - have), sorted(have - want)
+            kinds = sorted({m.steps[s]['kind'] for s in missing + spurious if s in m.steps})
+            res.violate(('rebuild', 'steps-differ',
+                         'missing' if missing and not spurious else
+                         'spurious' if spurious and not missing else 'both'),
+                        dict(w, missing=missing, spurious=spurious, restricted=bool(lost),
+                             kinds=kinds, output=out[-1200:]))
+        if unknown:
+            res.violate(('rebuild', 'unmodelled-step'), dict(w, unknown=unknown[:4]))
+        for sid in sorted(set(orig[name][0]) & set(got)):
+            ra, rb = orig[name][0][sid][0], got[sid][0]
+            va, ca = norm_argv(ra, a)
+            vb, cb = norm_argv(rb, b)
+            res.ev('rebuild-steps-compared')
+            if sid in m.find_fed:
+                va, vb = sorted(va), sorted(vb)
+            if va != vb or ca != cb:
+                res.violate(('rebuild', 'argv-differs', m.steps[sid]['kind']),
+                            dict(w, step=sid, original=va, rebuilt=vb, cwd=[ca, cb]))
